@@ -239,3 +239,9 @@ mod tests {
         assert!(matcher.matches(&entry, &mut deps.new_matcher_io()));
     }
 }
+
+// Verification hook: harnesses live outside the repository (see MANIFEST.hooks of the verifier).
+#[cfg(kani)]
+pub(crate) mod verif_kani {
+    include!(concat!(env!("FINDUTILS_VERIF_DIR"), "/harness/m_type_matcher.rs"));
+}
